@@ -745,6 +745,10 @@ int cp_rsa_dec(uint8_t *out, size_t *out_len, const uint8_t *in, size_t in_len,
 		bn_new(eb);
 
 		bn_read_bin(eb, in, in_len);
+		/* RSADP: the ciphertext representative must be in [0, n - 1]. */
+		if (bn_cmp(eb, prv->crt->n) != RLC_LT) {
+			RLC_THROW(ERR_NO_VALID);
+		}
 #if !defined(CP_CRT)
 		bn_mxp(eb, eb, prv->d, prv->crt->n);
 #else
